@@ -171,7 +171,7 @@ Orders == {"C", "F", "V"}        \* numpy memory layouts: C-contiguous, Fortran-
 
 (* The bounded pools.  b is the budget: 2 at the top, decreasing towards the leaves; primitive leaves range
    over Full for b >= 1 and over Rep for b = 0; every nullable position also takes NA.  Vals(t, 0) has at most
-   three elements for every t (it is used quadratically).                                                     *)
+   four elements for every t (it is used quadratically).                                                     *)
 RECURSIVE Vals(_, _)
 Vals(t, b) ==
   LET sub(u)   == Opt(Vals(u, IF b >= 1 THEN b - 1 ELSE 0))       \* the position under scrutiny
@@ -328,7 +328,6 @@ WithNd  == IOEnv.TV_ND = "1"                 \* n-d arrays in the universe (C33;
 Level   == atoi(IOEnv.TV_LEVEL)              \* 0: quick tier, 1: thorough tier
 NdTypes == IF WithNd THEN {TNd(P(k), n) : k \in Numeric, n \in 0 .. 3} ELSE {}
 Special == {TTup(Wide9), TStruct(Names9, Wide9)}
-K1 == {P("int32")}
 K2 == {P("int32"), P("str")}
 \* depth 2: one construction of every kind around each selected depth-1 type
 Over2(S) ==
